@@ -74,6 +74,11 @@ package utils
 
 // ---- session ids: 18 bytes, bytes 10..17 are the big-endian value of a process-wide counter that is
 // incremented once per id (so two ids of one process differ in those bytes), encoded with the URL-safe alphabet
+// one generator per process: the sequence number that makes ids of one process distinct lives in it
+//@ func Base64Id()
+//@   props C04, C20
+//@   modifies nothing
+//@   ensures [C04.idsingleton,C20.idsingleton] result == bid && result != nil
 //@ func (*base64Id).GenerateId()
 //@   props C04, C20
 //@   requires b != nil
